@@ -7,6 +7,12 @@ namespace Bpp.Describe
 
 def isBracket (c : Char) : Bool := c == '[' || c == ']'
 
+theorem isDigit_iff (c : Char) : isDigit c = true ↔ 48 ≤ c.toNat ∧ c.toNat ≤ 57 := by
+  unfold isDigit Char.isDigit
+  simp only [Bool.and_eq_true, decide_eq_true_eq, ge_iff_le]
+  rw [UInt32.le_iff_toNat_le, UInt32.le_iff_toNat_le]
+  rfl
+
 theorem findIdx?_prefix {p : Char → Bool} {X : List Char} {y : Char} {Z : List Char}
     (hX : ∀ c ∈ X, p c = false) (hy : p y = true) : (X ++ y :: Z).findIdx? p = some X.length := by
   induction X with
